@@ -169,20 +169,22 @@ PROPS["C02"] = dict(
     title="a Snapshot stays valid for its critical section", level="other",
     modules=_MODS_ALL, contract_groups=["state", "modular"],
     kani=dict(quick=_h(_RGF, ["rg_decrement_strong_noguard", "rg_decrement_strong_guard", "rg_is_not_destructed", "rg_try_destruct", "rg_increment_strong_protected"])
-              + _h("utils_dispose_h.rs", _DISP_CORE) + _h("utils_state_h.rs", ["c12_window_theorem", "c12_window_skew", "c12_modular_max3"])
+              + _h("utils_dispose_h.rs", _DISP_CORE) + _h("utils_state_h.rs", ["c12_window_theorem", "c12_window_skew", "c12_modular_max3", "c02_stamp_inside_critical_section_blocks_immediate_reclamation"])
               + _h("strong_h.rs", ["c08_store", "c08_swap", "c08_compare_exchange", "c08_compare_exchange_weak", "c08_compare_exchange_tag", "c08_load"])
               + _h("weak_h.rs", ["c05_wsnap_upgrade"])),
     kani_flags=_FAST, loops=_STUTTER,
     functions_under_contract=["RcInner::decrement_strong (stamp = epoch read before the CAS; zero => deferred try_destruct only)", "AtomicRc::{store,swap,compare_exchange*,compare_exchange_tag} (timestamp on every non-null write)",
                               "dispose_general_node (child reclaimed in the same pass only if newest(parent,link,child) stamp is old enough; merged stamp written)", "RcInner::is_not_destructed (token by CAS from zero)", "Modular::{le,max}"],
     expected_obligations=["C02.dec.stamp_is_epoch_read_before_cas", "C02.dec.never_destructs_directly", "C02.cascade.child_stamp_is_newest_of_parent_link_child", "C12.site.immediate_only_if_stamp_old_enough",
-                          "C02.cascade.recent_node_redeferred_exactly_once", "C02.wsnap_upgrade.token_added_when_zero", "C08.store.installs_ptr_tag_exact_timestamped", "C12.window.never_old_below_threshold"],
+                          "C02.cascade.recent_node_redeferred_exactly_once", "C02.wsnap_upgrade.token_added_when_zero", "C08.store.installs_ptr_tag_exact_timestamped", "C12.window.never_old_below_threshold",
+                          "C02.lemma.stamp_taken_inside_cs_makes_every_decision_inside_cs_recent", "C02.wsnap_upgrade.success_leaves_stamp_of_epoch_read_in_this_call"],
     trusted_base=[A_TOOLS, A_SC, A_RG, A_EBR, "A-PAPER: the CIRC Snapshot-validity theorem (composition of the four stamp mechanisms over epochs and critical sections) is NOT decided here"],
     assumptions=[A_SC, A_EBR, "A-PAPER (composition theorem of the CIRC paper)"],
     explanation="The schedule-quantified statement is the CIRC paper's main theorem; no per-function contract composes it. Decided here, for all inputs, are the four facts that theorem consumes, each a postcondition on the real code: "
                 "(1) decrement stamps the epoch read before its CAS and never destructs directly; (2) every non-null write to an AtomicRc carries the current epoch; (3) the cascade reclaims a child immediately only if the newest of "
-                "(parent, link, child) stamps is >= 3 epochs old and writes the merged stamp, otherwise defers exactly once; (4) WeakSnapshot::upgrade adds the token by CAS from zero. A change weakening any of them fails a named obligation; "
-                "a protocol flaw that keeps all four contracts intact is outside this check.",
+                "(parent, link, child) stamps is >= 3 epochs old and writes the merged stamp, otherwise defers exactly once; (4) WeakSnapshot::upgrade leaves a token (count zero) or the stamp of an epoch read in the call on the count word (this clause was added after defect F6). "
+                "Plus the arithmetic core of the composition as a lemma: a stamp taken while a thread is pinned makes every cascade decision taken inside that critical section 'recent', whatever the other two stamps are "
+                "(c02_stamp_inside_critical_section_blocks_immediate_reclamation). A change weakening any of them fails a named obligation; a protocol flaw that keeps all contracts intact is outside this check.",
 )
 PROPS["C06"] = dict(
     title="reclaiming a linked structure needs grace periods independent of its length", level="proof",
